@@ -530,8 +530,7 @@ Section Sound.
              ++ intros g sub' k Hk Hsub Hkn. apply in_app_or in Hk as [Hk|Hk]; [eapply Hf; eassumption|].
                 apply Hthru. eapply Hf2; eassumption.
           -- inversion E; subst. split; assumption.
-      + destruct tc as [tc|]; [|discriminate].
-        destruct (inline_root_type Sc tc root) as [r0|].
+      + destruct (inline_root_type Sc (match tc with Some tc0 => tc0 | None => root end) root) as [r0|].
         * destruct (resolve' fuel Sc frs sub r0) as [[[f2 m2] u2]|] eqn:Er; cbn [bind] in E; [|discriminate].
           inversion E; subst; clear E. apply IH in Er. destruct Er as [Hm2 Hf2].
           assert (Hsubi : forall k, reach frs (sel_spreads sub) k -> reach frs (sel_spreads sels) k).
